@@ -274,11 +274,11 @@ def _negation_text(test) -> str:
     return _unparse(_negate(test))
 
 
-def normalise_function(fnode, ref: dict) -> int:
+def normalise_function(fnode, ref: dict, parts=("locals", "eqs", "ifs")) -> int:
     """apply the three inverse edits to one function; returns the number of changes"""
     changed = 0
     # ---- 1. locals ------------------------------------------------------------------------
-    cur = local_names(fnode)
+    cur = local_names(fnode) if "locals" in parts else []
     refl = ref.get("locals", [])
     unknown = [x for x in cur if x not in refl]
     missing = [x for x in refl if x not in cur]
@@ -330,7 +330,7 @@ def normalise_function(fnode, ref: dict) -> int:
                 rename(ch, dict(mapping))
             changed += len(mapping)
     # ---- 1b. comprehension / lambda bound names -------------------------------------------
-    refs = ref.get("scopes", {})
+    refs = ref.get("scopes", {}) if "locals" in parts else {}
     if refs:
         # outermost first (ast.walk is breadth first)
         for n in list(ast.walk(fnode)):
@@ -347,7 +347,7 @@ def normalise_function(fnode, ref: dict) -> int:
                     _rename_in_scope(n, {f"__pdv_tmp{i}": w for i, w in enumerate(want)})
                     changed += 1
     # ---- 2. equalities --------------------------------------------------------------------
-    refe = set(ref.get("eqs", []))
+    refe = set(ref.get("eqs", [])) if "eqs" in parts else set()
     if refe:
         for n in ast.walk(fnode):
             if isinstance(n, ast.Compare) and len(n.ops) == 1 and isinstance(n.ops[0], (ast.Eq, ast.NotEq)):
@@ -359,7 +359,7 @@ def normalise_function(fnode, ref: dict) -> int:
                     n.left, n.comparators = n.comparators[0], [n.left]
                     changed += 1
     # ---- 3. if / else ---------------------------------------------------------------------
-    refi = set(ref.get("ifs", []))
+    refi = set(ref.get("ifs", [])) if "ifs" in parts else set()
     if refi:
         for n in ast.walk(fnode):
             if isinstance(n, ast.If) and n.orelse and n.body:
@@ -436,6 +436,7 @@ def normalise_module(tree, module_name: str) -> int:
         r = ref.get(q)
         if r:
             if "guards" in r:
+                n += normalise_function(fn, r, parts=("eqs", "ifs"))
                 for step in (N2.merge_branch_assignments, N2.inline_new_locals, N2.inline_new_locals, N2.ifexp_tests, N2.split_ifexp_statements, N2.unguard, N2.guardify):
                     try:
                         n += step(fn, r)
@@ -443,10 +444,11 @@ def normalise_module(tree, module_name: str) -> int:
                         pass
             n += normalise_function(fn, r)
             if "guards" in r:
-                try:
-                    n += N2.emptiness_forms(fn, r)
-                except Exception:   # pragma: no cover
-                    pass
+                for step in (N2.unguard, N2.guardify, N2.emptiness_forms):
+                    try:
+                        n += step(fn, r)
+                    except Exception:   # pragma: no cover
+                        pass
     return n
 
 
